@@ -489,13 +489,14 @@ def r3_representation_switch(repo=None):
             node = n_
             out[bool(fl)] = v.intval() if v.intval() is not None else _local_alias_text(fn, v)
         return out, node
-    got, node = under_flag(cf, "num_rows")
+    rows_var = _rows_target(cf)
+    got, node = under_flag(cf, rows_var)
     if got is None:
-        raise AnalysisError("%s: assignment of num_rows not found" % cf.name)
+        raise AnalysisError("%s: assignment of the data-set row count `%s` not found" % (cf.name, rows_var))
     if got == {True: "samples_to_write", False: "max_samples_this_file"}:
-        r.ok("%s:%s %s num_rows" % (LIB, node.line, cf.name), "samples_to_write when chunked, max_samples_this_file when dense")
+        r.ok("%s:%s %s %s" % (LIB, node.line, cf.name, rows_var), "samples_to_write when chunked, max_samples_this_file when dense")
     else:
-        r.violation(LIB, cf.name, "num_rows under needs_chunking: %s" % got, "dataset size does not follow the representation flag "
+        r.violation(LIB, cf.name, "data-set rows under needs_chunking: %s" % got, "dataset size does not follow the representation flag "
                     "(a dense file must expose every slot of its window)", line=node.line)
     gotd, node = under_flag(cf, OBJ + "->dataset_index")
     if gotd is None:
@@ -591,6 +592,31 @@ def r4_property_list_owners(repo=None):
         raise AnalysisError("only %d uses of dataset_prop found (23 on the reference tree)" % n)
     r.guard(6)
     return r
+
+
+def _rows_target(cf):
+    """the local that holds the number of rows the new file's data set gets: the value stored into element 0 of the dimension
+    array given to the H5Screate_simple whose result is the data space of H5Dcreate2 (the element itself when the stored value
+    is not a plain local)"""
+    spaces = {clib.alias_path(cf, c.args[3]) for c in cf.calls(("H5Dcreate2",))}
+    if len(spaces) != 1 or None in spaces:
+        raise AnalysisError("%s: data space argument of H5Dcreate2 not recognised (%s)" % (cf.name, sorted(map(str, spaces))))
+    space = list(spaces)[0]
+    dims_var = None
+    for path, node, rhs, kind in clib.stores(cf):
+        if path == space and kind == "=":
+            e = rhs.strip(casts=True)
+            if e.kind == "CallExpr" and e.callee == "H5Screate_simple":
+                dims_var = e.args[1].path()
+    if dims_var is None:
+        raise AnalysisError("%s: `%s = H5Screate_simple(...)` not found" % (cf.name, space))
+    sets = [(node, rhs) for path, node, rhs, kind in clib.stores(cf) if path == dims_var + "[0]" and kind == "="]
+    if len(sets) == 1:
+        v = sets[0][1].strip(casts=True).path()
+        locals_ = {d.name for d in cf.find("VarDecl")}
+        if v in locals_:
+            return v
+    return dims_var + "[0]"
 
 
 def r5_dataset_sized_per_file(repo=None):
